@@ -514,6 +514,31 @@ theorem bindTs_keys : ∀ (es : List Expr) (orig : TySet) (ityp : Option TySet) 
       · exact Or.inr (bindTs_keys es orig ityp (i + 1) p h)
 end
 
+/-- With no r-value type nothing is recorded for any target. -/
+theorem bindT_none : ∀ (t : Expr), bindT R none t = []
+  | .starred _ v _ => by simp [bindT, bindT_none v]
+  | .noneMarker => by simp [bindT]
+  | .const .. => by simp [bindT]
+  | .name .. => by simp [bindT]
+  | .attr .. => by simp [bindT]
+  | .subscript .. => by simp [bindT]
+  | .call .. => by simp [bindT]
+  | .keyword .. => by simp [bindT]
+  | .boolop .. => by simp [bindT]
+  | .unary .. => by simp [bindT]
+  | .binop .. => by simp [bindT]
+  | .compare .. => by simp [bindT]
+  | .ifexp .. => by simp [bindT]
+  | .lambda .. => by simp [bindT]
+  | .seq .. => by simp [bindT]
+  | .namedexpr .. => by simp [bindT]
+  | .comp .. => by simp [bindT]
+  | .comprehension .. => by simp [bindT]
+  | .arguments .. => by simp [bindT]
+  | .arg .. => by simp [bindT]
+  | .withitem .. => by simp [bindT]
+  | .other .. => by simp [bindT]
+
 /-- `RtOk rt v`: the value has the r-value type, if one is known. -/
 def RtOk (rt : Option TySet) (v : Val) : Prop := ∀ T, rt = some T → InSet v T
 
